@@ -98,6 +98,8 @@ const MAX_NODES: usize = 28;
 pub struct StepObs {
     pub step: usize,
     pub what: String,
+    /// source / target type as reported through the `Arrow` trait (what generic code sees)
+    pub trait_types: Option<(Vec<L>, Vec<L>)>,
     /// None = the operation reported failure (compose on mismatching types, rejected spider)
     pub got: Option<Result<Plain, String>>,
     pub want: Option<Plain>,
@@ -199,7 +201,8 @@ dev_impl! {
             let keep = want.as_ref().map_or(false, |w| w.w.len() <= MAX_NODES && w.e.len() <= MAX_NODES);
             let got_plain = got.as_ref().map(|g| Self::from_dev(g));
             let ok = matches!(got_plain, Some(Ok(_)));
-            out.push(StepObs { step, what: format!("{:?}", op), got: got_plain, want: want.clone() });
+            let trait_types = if ok { got.as_ref().map(|g| (Self::un_sf(&<OH<K> as Arrow>::source(g)), Self::un_sf(&<OH<K> as Arrow>::target(g)))) } else { None };
+            out.push(StepObs { step, what: format!("{:?}", op), trait_types, got: got_plain, want: want.clone() });
             if let (Some(g), Some(w), true, true) = (got, want, keep, ok) {
                 // results go back into the pool (replace an old member when the pool is full)
                 if pool.len() >= 6 {
@@ -278,7 +281,8 @@ fn constructors_ref(r: &Raw) -> Vec<(&'static str, bool)> {
         let sum: usize = r.ic_sizes.iter().sum();
         out.push(("IndexedCoproduct::new", r.ic_sizes_cod == sum + 1 && sum == r.ic_values));
     }
-    out.push(("IndexedCoproduct::from_semifinite", r.sf_sizes.iter().sum::<usize>() == r.sf_values));
+    let true_sum = r.sf_sizes.iter().try_fold(0usize, |a, k| a.checked_add(*k));
+    out.push(("IndexedCoproduct::from_semifinite", true_sum == Some(r.sf_values)));
     out.push(("Operations::new", r.ops_x == r.ops_a && r.ops_x == r.ops_b));
     let p = &r.base;
     let n = p.w.len() as i64;
@@ -304,6 +308,11 @@ fn judge_pool(ex: &mut Exec, cfg: &str, obs: Vec<StepObs>) -> Result<(), Violati
             (Some(Ok(g)), Some(w)) => {
                 if g.src_type() != w.src_type() || g.tgt_type() != w.tgt_type() {
                     return viol("C05:pool:wrong-type", format!("[{}] step {} {}: result has type {:?} -> {:?}, promised {:?} -> {:?}", cfg, o.step, o.what, g.src_type(), g.tgt_type(), w.src_type(), w.tgt_type()));
+                }
+                if let Some((s, t)) = &o.trait_types {
+                    if *s != w.src_type() || *t != w.tgt_type() {
+                        return viol("C05:pool:wrong-type-through-Arrow-trait", format!("[{}] step {} {}: Arrow::source / Arrow::target report {:?} -> {:?}, promised {:?} -> {:?}", cfg, o.step, o.what, s, t, w.src_type(), w.tgt_type()));
+                    }
                 }
                 expect_iso(ex, g, w, "C05:pool:diverged-from-reference-twin", &format!("{} step {} {}", cfg, o.step, o.what))?;
                 ex.probe("pool_results_checked");
@@ -349,7 +358,17 @@ fn gen_raw(r: &mut Rng, c: &gen::GenCfg) -> Raw {
     raw.what = "no datum flipped".into();
     let pm = |r: &mut Rng| if r.chance(1, 2) { 1 } else { -1 };
     // at most one flip per constructor family
-    match r.below(16) {
+    match r.below(17) {
+        16 if raw.sf_sizes.len() >= 2 => {
+            // two sizes whose *true* sum exceeds the value count by exactly 2^64: an acceptance test
+            // computed with wrapping machine arithmetic sees the right sum
+            let i = r.below(raw.sf_sizes.len());
+            let j = (i + 1 + r.below(raw.sf_sizes.len() - 1)) % raw.sf_sizes.len();
+            let (oi, oj) = (raw.sf_sizes[i], raw.sf_sizes[j]);
+            raw.sf_sizes[j] = usize::MAX - 3;
+            raw.sf_sizes[i] = oi + oj + 4;
+            raw.what = "from_semifinite: two sizes whose true sum exceeds the value count by 2^64 (the machine sum wraps around to it)".into();
+        }
         0 if !raw.ff_table.is_empty() => {
             let i = r.below(raw.ff_table.len());
             raw.ff_table[i] = raw.ff_target; // entry == target
